@@ -13,7 +13,7 @@ VERIF = os.path.dirname(os.path.dirname(os.path.abspath(__file__)))
 BIN = os.path.join(VERIF, 'bin', 'thunderlint')
 
 def run_variant(prop, repo, v):
-    edits = v.get('edits') or [{'file': v['file'], 'old': v['old'], 'new': v['new']}]
+    edits = v.get('edits') or [{k: v[k] for k in ('file', 'old', 'new', 'regex', 'repl') if k in v}]
     overlays = []
     tmpfiles = []
     byfile = {}
@@ -25,6 +25,14 @@ def run_variant(prop, repo, v):
                 src = open(path).read()
             except OSError:
                 return dict(name=v['name'], status='skipped', why='file missing: ' + e['file'])
+        if 'regex' in e:
+            # identifier renames and similar whole-file rewrites (benign variants)
+            import re
+            new_src, cnt = re.subn(e['regex'], e['repl'], src)
+            if cnt == 0:
+                return dict(name=v['name'], status='skipped', why='regex matches nothing in ' + e['file'])
+            byfile[path] = new_src
+            continue
         n = src.count(e['old'])
         if n != 1:
             return dict(name=v['name'], status='skipped', why='anchor text occurs %d times in %s' % (n, e['file']))
